@@ -68,7 +68,9 @@ IMPORT_PATTERN_POOL = ["mb", "m.*", "pk.*", "pk\\.mc", "ma|mb", "pk", ".*"]
 HEADER = ["from collections import namedtuple", "from contextlib import nullcontext",
           "from rattr.analyser.annotations import rattr_ignore, rattr_results"]
 
-BLOCKS = ["top"] * 8 + ["if", "else", "try", "except", "try-else", "finally", "with", "for", "while", "match"]
+BLOCKS = ["top"] * 8 + ["if", "else", "try", "except", "try-else", "finally", "with", "for", "while", "match",
+                       "match-later-case", "match-in-if", "if-in-match", "trystar", "trystar-except", "trystar-else",
+                       "trystar-finally", "trystar-in-match"]
 
 
 def ind(lines, n=1):
@@ -98,6 +100,22 @@ def in_block(kind, lines):
         return ["while True:"] + ind(lines) + ["    break"]
     if kind == "match":
         return ["match 0:", "    case 0:"] + ind(lines, 2)
+    if kind == "match-later-case":
+        return ["match 0:", "    case 1:", "        pass", "    case _ if True:"] + ind(lines, 2)
+    if kind == "match-in-if":
+        return ["if True:"] + ind(in_block("match", lines))
+    if kind == "if-in-match":
+        return in_block("match", in_block("if", lines))
+    if kind == "trystar":
+        return ["try:"] + ind(lines) + ["except* ImportError:", "    pass"]
+    if kind == "trystar-except":
+        return ["try:", "    pass", "except* ImportError:"] + ind(lines)
+    if kind == "trystar-else":
+        return ["try:", "    pass", "except* ImportError:", "    pass", "else:"] + ind(lines)
+    if kind == "trystar-finally":
+        return ["try:", "    pass", "except* ImportError:", "    pass", "finally:"] + ind(lines)
+    if kind == "trystar-in-match":
+        return in_block("match", in_block("trystar", lines))
     raise ValueError(kind)
 
 
@@ -143,8 +161,6 @@ class ModGen:
                          "assign", "ann", "aug", "tuple", "chain", "walrus", "walrus-lambda", "list", "call-value", "bare-walrus"])
         n = self.fresh()
         block = r.choice(BLOCKS)
-        if block == "match" and kind.startswith("class"):
-            block = "if"        # a class inside a module-level `match` ends in ValueError("class ... is not in the current context"): C07's subject
         if self.stdlib_free:
             kind = "assign" if kind == "namedtuple" else kind
             block = "if" if block == "with" else block
@@ -212,7 +228,7 @@ class ModGen:
         else:
             lines = [f"{n} = helper0(1)"]
             self.binders.append((n, "value"))
-        if block == "except":       # never executed: CPython does not bind these names, importers must not ask for them
+        if block in ("except", "trystar-except"):       # never executed: CPython does not bind these names, importers must not ask for them
             bound = {b[0] for b in self.binders}
             self.exp.funcs = [x for x in self.exp.funcs if x != n]
             self.exp.classes = [x for x in self.exp.classes if x != n]
@@ -249,7 +265,8 @@ class ModGen:
         things = [(f, "callable") for f in e.funcs] + [(c, "value") for c in e.classes] + [(v, "value") for v in e.values]
         if form in ("from", "from-as", "rel-from", "rel-from-as") and not things:
             form = "import-as"
-        block = r.choice(["top"] * 6 + ["try", "if", "else", "except"])
+        block = r.choice(["top"] * 6 + ["try", "if", "else", "except", "match", "match-later-case", "trystar", "trystar-else",
+                                       "trystar-except", "if-in-match"])
         leaf = e.name.rsplit(".", 1)[-1]
         if form == "import":
             line = f"import {e.name}"
@@ -570,7 +587,9 @@ def binder_kinds(tree: ast.Module):
     state = {"match": False}
 
     def add(n, k):
-        kinds.setdefault(n, []).append("binding-inside-match" if state["match"] else k)
+        # a construct that is second-class wherever it stands keeps its own class inside a `match` too
+        inside = state["match"] and k not in ("dotted-import", "walrus-outside-assignment-statement")
+        kinds.setdefault(n, []).append("binding-inside-match" if inside else k)
 
     def targets(t, k):
         if isinstance(t, ast.Name):
@@ -642,7 +661,7 @@ def binder_kinds(tree: ast.Module):
                     if i.optional_vars is not None:
                         targets(i.optional_vars, "with-target")
                 go(s.body)
-            elif isinstance(s, ast.Try):
+            elif isinstance(s, (ast.Try, getattr(ast, "TryStar", ast.Try))):
                 go(s.body)
                 for h in s.handlers:
                     go(h.body)
@@ -658,8 +677,9 @@ def binder_kinds(tree: ast.Module):
     return kinds
 
 
-# constructs that bind in Python but are known not to reach rattr's root context: a name counts as bound
-# by one of them only when nothing else binds it
+# constructs that bind in Python but are (were) known not to reach rattr's root context: a name counts as bound
+# by one of them only when nothing else binds it. "binding-inside-match" is repaired since /repo 6e8e4cc (visit_Match);
+# the label stays as the syntactic class of the signature, which is no longer a known finding
 SECOND_CLASS = ("dotted-import", "binding-inside-match", "walrus-outside-assignment-statement")
 # [interp] the property lists "module-level definition, import or assignment": targets of a module-level
 # `for` / `with` are bindings but none of the three; warnings about them are counted, not judged
